@@ -66,6 +66,12 @@ def brief_records(c):
     if ok:
         c.traces_validated += len(lines)
         return
+    ev = json.loads(lines[at - 1])
+    if ev.get("e") == "deadline":
+        c.report_failure("kv: %s waiter (%s) on a record that ran out: returned %s%s" % (
+                         ev.get("backend"), ev.get("change"), ev.get("res"), " late" if ev.get("late_ms", 0) > 1000 else ""),
+                         {"rejected_at_line": at, "history": lines[:at], "trace": {"comp": "kv", "module": "PromptTrace", "constants": {"Bound": 1000}}})
+        return
     c.report_failure("kv: waiters on records that ran out within microseconds never returned / returned something else than ErrNotExist",
                      {"rejected_at_line": at, "history": lines[:at], "trace": {"comp": "kv", "module": "PromptTrace", "constants": {"Bound": 1000}}})
 
